@@ -279,4 +279,46 @@ theorem C18_tie_classes :
          genClasses fs rp n.toList == some (isWritable fs rp n.toList, isReadable fs rp n.toList, isStatable fs rp n.toList, isSoftBan fs rp n.toList)))) = true := by
   decide +kernel
 
+open GoSandbox.Model.FileSetGen in
+/-- **tie of the handler's verdicts**: the regenerated Handler.CheckWrite/CheckRead/CheckStat with the regenerated
+onDgsFileDetect give the hand model's verdict (allow through the class' chain of sets, otherwise soft ban exactly
+when the soft-ban set covers the name, otherwise kill) for each class on names of every kind — covered by each set,
+by the soft-ban set only, by nothing, the root, the empty (unresolvable) name — with `realPath` the identity and
+`realPath` = "" -/
+theorem C18_tie_handler :
+    (let fs : FileSets := ⟨⟨["/w/".toList], false⟩, ⟨["/r/*".toList], false⟩, ⟨["/s".toList], true⟩, ⟨["/b/".toList, "/s".toList], false⟩⟩
+     ["/w/x", "/r/x", "/r/x/y", "/s", "/", "/b/q", "", "/zz"].all (fun n =>
+       [fun (x : Str) => x, fun _ => ([] : Str)].all (fun rp =>
+         [Cls.write, Cls.read, Cls.stat].all (fun c =>
+           genCheck fs rp c n.toList == some (check fs rp c n.toList))))) = true := by
+  decide +kernel
+
+/-- call histories over a small alphabet of names -/
+def histories (names : List Str) : Nat → List (List Str)
+  | 0 => [[]]
+  | n + 1 => (histories names n).flatMap (fun h => [] :: names.map (fun x => x :: h))
+
+open GoSandbox.Model.FileSetGen in
+/-- run a history through the regenerated CheckSyscall and through the hand model, comparing verdict and table after every call -/
+def historyAgrees : Counter → List Str → Bool
+  | _, [] => true
+  | c, x :: rest =>
+    match genCheckSyscall c x with
+    | some (c', a) => (checkSyscall c x == (c', a)) && historyAgrees c' rest
+    | none => false
+
+open GoSandbox.Model.FileSetGen in
+/-- **tie of the counter**: over every call history of length ≤ 4 on the names {a, b, u} from a table that counts
+`a` down from 3 and `b` from 1 (and does not know `u`), the regenerated CheckSyscall + SyscallCounter.Check return
+the hand model's verdict and leave the hand model's table after every call (so the theorems `C18_counter`,
+`C18_counter_stays_refused`, `C18_uncounted_banned` speak about the code's table); budgets 0, 1, 2 and a negative
+one; and the regenerated Add sets exactly one entry -/
+theorem C18_tie_counter :
+    ((histories ["a".toList, "b".toList, "u".toList] 4).all (fun h =>
+       historyAgrees [("a".toList, 3), ("b".toList, 1)] h)) = true ∧
+    ([0, 1, 2, -1].all (fun (k : Int) => historyAgrees [("a".toList, k)] ["a".toList, "a".toList, "a".toList])) = true ∧
+    (genCounterAdd [("a".toList, 3)] "b".toList 2 == some [("a".toList, 3), ("b".toList, 2)] &&
+     genCounterAdd [("a".toList, 3), ("b".toList, 1)] "a".toList 7 == some [("a".toList, 7), ("b".toList, 1)]) = true := by
+  refine ⟨?_, ?_, ?_⟩ <;> decide +kernel
+
 end GoSandbox.Props.C18
